@@ -628,6 +628,13 @@ class LayoutDomain:
                 axes[k] = ("Ps",)
                 return ListOf("SENS", Arr(axes))
             return U("split")
+        if base == "reduceat" and isinstance(a0, Arr):
+            ax = kwargs.get("axis", args[2] if len(args) > 2 else Const(0))
+            axes = list(a0.axes)
+            if isinstance(ax, Const) and isinstance(ax.value, int) and axes:
+                axes[ax.value % len(axes)] = ("?red",)
+                return Arr(axes)
+            return U("reduceat")
         if base == "delete" and isinstance(a0, Arr):
             axes = list(a0.axes)
             if axes: axes[0] = ("?del",)
